@@ -158,7 +158,7 @@ pub fn monitor(out: &RunOut) -> MonOut {
                         if ok {
                             md.failures = 0;
                         } else {
-                            md.failures = md.failures.wrapping_add(1);
+                            md.failures = md.failures.saturating_add(1);
                         }
                         // the tail events of the check: Schedule then Proto
                         let sched_ev = c.events.iter().rev().find_map(|(_, e)| if let EventRec::Schedule(s) = e { Some(s.clone()) } else { None });
@@ -274,7 +274,7 @@ pub fn monitor(out: &RunOut) -> MonOut {
                                             resync = true;
                                         }
                                     }
-                                    Some(false) => md.failures = md.failures.wrapping_add(1),
+                                    Some(false) => md.failures = md.failures.saturating_add(1),
                                     None => resync = true,
                                 }
                             }
